@@ -120,6 +120,8 @@ def run(tier, seed, replay=None):
         list_common.yield_contract(ck, ld, 2, 2, skip=lambda c: max(c, default=0) < 2)
     else:
         list_common.yield_contract(ck, ld, 2, 1)
+    list_common.walk_contract(ck, ld)
+    ck.replayers["walk."] = replay_listing
     ck.replayers["yield."] = replay_listing
     ck.replayers["decorate."] = replay_listing
     for nm in ("_yield_matching_files", "ilsdrf", "_decorate_drf_files"):
@@ -132,7 +134,7 @@ def run(tier, seed, replay=None):
     ck.bounded_runs.append(("bounded.lsdrf_vs_spec", "%d generated trees x 6 queries (nested RF/metadata/legacy channels, empty subdirs, stray and tmp files, all flags, windows on file/subdir edges)" % ntrees,
                             r["cases"], r["failures"]))
     ck.trust({"bisect.bisect_left": "standard contract (executed, CPython)", "os.walk/os.listdir/re": "executed, not deduced (bounded differential only)"})
-    ck.assumptions += ["ilsdrf (os.walk order, property-file flags, recursion) is covered only by the bounded differential against the set-theoretic listing specification (labelled bounded, not proved)"]
+    ck.assumptions += ["ilsdrf (walk order, property-file flags, recursion) is checked against the channel lister's contract on enumerated virtual trees x all flag combinations, and by the bounded differential on real trees; the start-directory-is-a-timestamped-subdirectory branch only by the differential"]
     ck.extra["explanation"] = ("window slice: path-complete symbolic execution of the real _decorated_list_slice for all list lengths <= bound with symbolic times; "
                                "channel listing: path-complete symbolic execution of the real _yield_matching_files generator over bounded directory shapes with symbolic times against the window/order/look-back contract; "
                                "grammar: exhaustive regex evaluation over a bounded name grammar; directory walk: bounded differential against the specification")
